@@ -10,7 +10,9 @@ from ..runner import Env, Outcome, Violation
 THEOREMS = ["C31_active_steps", "C31_timeout_tick", "C31_cancel_tick", "C31_drain_timeout", "C31_drain_cancel",
             "C31_nothing_after_end", "C31_finished_never_timed_out", "C31_timeout_only_after_deadline",
             "C31_halt_timeout_only_by_timeout_tick", "C31_cancel_keeps_serialised_context",
-            "C31_immediate_retry_buffered", "C31_buffer_drained_before_mailbox", "C31_requeue_tick_held"]
+            "C31_immediate_retry_buffered", "C31_buffer_drained_before_mailbox", "C31_requeue_tick_held",
+            "C31_rebuild_rewinds_first", "C31_rebuild_base_starts_pending", "C31_stopped_state_is_replay_of_log",
+            "C31_rebuilt_context_is_run_state"]
 EXPLANATION = (
     "Lean: the timeout tick publishes WorkflowTimedOutEvent naming exactly the steps with an in-progress invocation and halts with "
     "`timeout`, keeping queues/in-progress/buffers/waiters; the cancel tick publishes WorkflowCancelledEvent and halts with "
@@ -28,7 +30,17 @@ EXPLANATION = (
     "with the cancel delivered in the very instant the gate opens (scheduler option gate+ext); oracle independent of the engine "
     "state: from the step bodies' own enter/exit records, every invocation that was executing at the cancel, or whose last "
     "execution failed with the spec's policy granting an immediate retry, must be executed again by the resumed run (a retry "
-    "waiting out a positive delay is the recorded finding C12/pending_retry_timer_lost and only counted)."
+    "waiting out a positive delay is the recorded finding C12/pending_retry_timer_lost and only counted). Every generation: "
+    "ctx.to_dict() rebuilds the state from the run's START state and its tick log (model `rebuildAt`: rewind always, then every "
+    "tick at the current clock); a context left with pending work comes back with queue entries and nothing in progress, and the "
+    "rewound base has that work in progress (C31_rebuild_base_starts_pending); from the rewound start state -- fresh or the context "
+    "of an earlier stop -- the log replays to the live state at every point of every schedule (C31_stopped_state_is_replay_of_log, "
+    "C31_rebuilt_context_is_run_state under an unmoved clock). Tie: the real rebuild_state_from_ticks on each generation's start "
+    "state and adapter log against `rebuildAt` (driver op `rebuild`). Search: chains of 2-3 stop/resume rounds (cancel_run at "
+    "scheduler-chosen points, also in the instant a gate opens, or the workflow timeout; external events and to_dict() calls in "
+    "between) over pipelines with gated/sleeping/retrying stages and the general families: after every stop ctx.to_dict() must "
+    "succeed and equal the state the stopped run was left in, and the next generation must execute, or still hold, every "
+    "invocation that was executing (bodies' records) or pending (live state) at the stop."
 )
 ASSUMPTIONS = suite.ENGINE_ASSUMPTIONS + [
     "delivery of CancelledError into running step bodies and executor threads of sync steps is asyncio's; covered only by the monitors (no step entry after the end)",
@@ -195,7 +207,7 @@ def _cancel_resume(env: Env, out: Outcome, n: int, gen=_general_spec, label: str
                                                 f"never executed again for that event (resumed run ended as {tr2.outcome[0]}); {held}", case))
 
     # the resumed runs against the runner LTS (rinit without a start event: timer heap, buffer, workers, stream, commands per tick)
-    suite.runner_corr(out, resumed, "engine-runner-resumed")
+    suite.runner_corr(out, resumed, "engine-runner-resumed", rebuild=True)
     # the cancelled runs whose cancel was delivered together with a gate opening: worker result and cancel tick in front of the loop at once
     suite.runner_corr(out, firsts, "engine-runner-cancel-race")
 
@@ -401,14 +413,17 @@ def _generations(env: Env, out: Outcome, n: int, extra: tuple = (), label: str =
             prev_dict = snaps[0]["dict"]
             carried = list(getattr(tr, "remaining_externals", []))
     # every generation against the runner LTS (resumed ones: rinit without a start event from the deserialised context)
-    suite.runner_corr(out, traces, "engine-runner-generations")
+    # ... and what ctx.to_dict() computes from each generation's start state and tick log against the model's `rebuildAt`
+    suite.runner_corr(out, traces, "engine-runner-generations", rebuild=True)
 
 
 def run(env: Env) -> Outcome:
     out = Outcome()
     out.rule = ("live: general/retry/wait workflows with timeouts and cancels at scheduler-chosen quiet points; cancel_resume: cancel, ctx.to_dict -> JSON, "
                 "Context.from_dict, run again; cancel_race: zero-delay (and some positive-delay) retry policies, attempts failing behind a gate, the cancel "
-                "delivered together with a gate opening; non-trivial = more than 2 ticks / work pending or owed at the cancel; distinct by (spec, schedule)")
+                "delivered together with a gate opening; generations: 2-3 stop/resume rounds in a row (cancel / timeout / external events / to_dict in "
+                "between) over pipelines and the general families; non-trivial = more than 2 ticks / work pending or owed at the cancel / a stopped "
+                "resumed run inside which restarted work had completed; distinct by (spec, schedule)")
 
     def with_end(spec: dict, rng: random.Random) -> dict:
         r = rng.random()
